@@ -28,6 +28,11 @@ def run(ctx):
             seen.add(k); nv2.append(v)
     nv = nv2
     cases = [dict(v, id=i, reps=[(i + ctx.seed) % 24, (i * 7 + 3 + ctx.seed) % 24] if quick else list(range(6))) for i, v in enumerate(nv)]
+    # a seeded sample of the strings of numeric form is also EVALUATED, the same occurrence several times (loop passes; receiver of
+    # 自增, argument of a method that changes its input, plain use): it denotes its number every time
+    nums = [c for c in cases if c.get("c") == "number"]
+    for c in rnd.sample(nums, min(len(nums), 4000 if quick else 40000)):
+        c["eval"] = True
     res = common.run_harness(ctx, znh, "num", cases, timeout=3000)
     cls = {"number": 0, "name": 0, "reject": 0}
     for r in res:
